@@ -404,7 +404,7 @@ func init() {
 					}
 					conversionCase(c, i)
 				}})
-			secs = append(secs, core.Section{Name: "conversion-special", Exhaustive: true, N: len(mutTemplates) + 6 + len(argFaultCases) + len(zeroLiterals) + 5 + 5,
+			secs = append(secs, core.Section{Name: "conversion-special", Exhaustive: true, N: len(mutTemplates) + 6 + len(argFaultCases) + len(zeroLiterals) + 5 + 1 + 5,
 				Run: func(c *core.Ctx, i int) {
 					registerConversionFuncs()
 					registerMutators()
@@ -478,6 +478,12 @@ var mutTemplates = []struct {
 	{`{{ rows.mut(user) }}{{ rows.mut(user) }}{{ rows }}{{ user }}`, 1, true},
 	{`@for(k = 0; k < 3; k++){{ rows.mut() }}{{ user.tags.mut(user.meta) }}@end{{ rows }}{{ user }}`, 2, true},
 	{`{{ x = [user, user] }}{{ "a".mut(x) }}{{ "a".mut(x) }}{{ "a".mut(x[0], x[1]) }}{{ x }}`, 1, false},
+	// empty objects and arrays: every one is a fresh, empty value for the callee, also after an earlier callee filled its copy
+	{`{{ "a".mut({}) }}{{ "b".mut({}) }}{{ "c".mut({}) }}`, 1, true},
+	{`{{ "c".mut({}, [], {}) }}{{ "d".mut({}, [], {}) }}`, 1, true},
+	{`@each(k in [1, 2, 3]){{ "a".mut({}, [{}], emptyobj) }}@end{{ emptyobj }}`, 1, true},
+	{`{{ e = {} }}{{ [e, {}].mut(e) }}{{ [e, {}].mut(e) }}{{ e }}`, 1, true},
+	{`{{ e = {} }}{{ "z".mut(e, {}) }}{{ "z".mut(e, {}) }}{{ e }}@each(k in [1, 2]){{ "y".mut({}) }}@end`, 1, false},
 }
 
 // specialConversionCase: a callee that overwrites what it receives must not be felt by later
@@ -492,7 +498,7 @@ func specialConversionCase(c *core.Ctx, i int) {
 		mt := mutTemplates[i]
 		src := mt.src
 		data := func() map[string]any {
-			return map[string]any{"user": user(), "rows": []any{map[string]any{"id": 1}, map[string]any{"id": 2}, []any{3}}}
+			return map[string]any{"user": user(), "rows": []any{map[string]any{"id": 1}, map[string]any{"id": 2}, []any{3}}, "emptyobj": map[string]any{}}
 		}
 		desc := map[string]any{"source": src, "callee": "mut records its arguments, then overwrites every map and slice it was given"}
 		c.Input(desc)
@@ -509,6 +515,11 @@ func specialConversionCase(c *core.Ctx, i int) {
 		}
 		first := map[int]string{}
 		for k, seen := range cfSeen {
+			// no call may receive what an earlier callee wrote into its copy
+			if strings.Contains(seen, "\"seen\"") || strings.Contains(seen, "overwritten") {
+				c.Violation("conversion:mutating-callee:leak", fmt.Sprintf("call %d received %s: it holds what an earlier callee wrote into the copy it was given", k, clipS(seen, 300)), desc)
+				return
+			}
 			site := k % mt.sites
 			if f, ok := first[site]; !ok {
 				first[site] = seen
@@ -618,10 +629,48 @@ func specialConversionCase(c *core.Ctx, i int) {
 		if first == nil && second == nil {
 			c.Violation("registry:second-registration-accepted", fmt.Sprintf("a %s function name registered twice (first with a nil function): both attempts succeeded", typ), desc)
 		}
+	case i == len(mutTemplates)+6+len(argFaultCases)+len(zeroLiterals)+5:
+		// a function whose result changes from call to call, called from a loaded page rendered three times without data,
+		// and a function that registers another one while the page is being rendered
+		var ticket int
+		textwire.RegisterIntFunc("ticket", func(n int, a ...any) int { ticket++; return n + ticket })
+		textwire.RegisterStrFunc("reg", func(s string, a ...any) string {
+			textwire.RegisterStrFunc("late"+s, func(t string, b ...any) string { return strings.ToUpper(t) + "!" })
+			return s
+		})
+		files := map[string]string{"ticket.tw": "ticket {{ 100.ticket() }}", "late.tw": "{{ \"one\".reg() }}:{{ \"hi\".lateone() }}@each(k in [1, 2]){{ \"two\".reg() }}{{ \"x\".latetwo() }}@end"}
+		if err := writeFilesFresh("c20state", files); err != nil {
+			c.Inconclusive(err.Error())
+			return
+		}
+		tpl, err, panicked := newTemplate(c, "c20state", ".tw")
+		c.Nontrivial("stateful-functions")
+		if panicked {
+			return
+		}
+		if err != nil || tpl == nil {
+			c.Violation("conversion:entry-point:NewTemplate", fmt.Sprintf("loading failed: %v", err), nil)
+			return
+		}
+		for k := 1; k <= 3; k++ {
+			for _, data := range []map[string]any{nil, {}} {
+				ticket = 10 * k
+				want := fmt.Sprintf("ticket %d", 100+10*k+1)
+				if o, _ := renderPage(c, tpl, "ticket", data); !o.Panicked && (o.Err != nil || o.Out != want) {
+					c.Violation("conversion:function-not-called", fmt.Sprintf("render %d of a page calling a function whose result changes gave %s, want %q", k, o.Describe(), want), map[string]any{"files": describeFiles(files)})
+				}
+			}
+		}
+		if o, _ := renderPage(c, tpl, "late", nil); !o.Panicked && (o.Err != nil || o.Out != "one:HI!twoX!twoX!") {
+			c.Violation("registry:registered-during-render", fmt.Sprintf("a function registered (successfully) by another function during the render gave %s, want %q", o.Describe(), "one:HI!twoX!twoX!"), map[string]any{"files": describeFiles(files)})
+		}
+		if got := evalString(c, "{{ \"three\".reg() }}{{ \"y\".latethree() }}", nil); !got.Panicked && (got.Err != nil || got.Out != "threeY!") {
+			c.Violation("registry:registered-during-render", fmt.Sprintf("EvaluateString: a function registered during the render gave %s", got.Describe()), nil)
+		}
 	default:
 		// every entry point sees the registered functions
 		recvs := []string{`"s"`, "[1, 2]", "7", "2.5", "true"}
-		rs := recvs[(i-len(mutTemplates)-6-len(argFaultCases)-len(zeroLiterals)-5)%len(recvs)]
+		rs := recvs[(i-len(mutTemplates)-6-len(argFaultCases)-len(zeroLiterals)-6)%len(recvs)]
 		src := "<{{ " + rs + ".rec(1, \"a\") }}>{{ v.rec() }}"
 		data := map[string]any{"v": "from data"}
 		want := evalString(c, src, data)
